@@ -149,6 +149,35 @@ def length_guard(b, bb, param):
                     best = max(best, k)
                 elif op == "Gt" and truth:
                     best = max(best, k + 1)
+    # a successful fallible access of the input establishes its length too: `get(k)`, `get(a..)`, `get(a..b)`,
+    # `first()`, `split_first()`, `split_at_checked(k)` being `Some` on the way to bb
+    from flow import dom_guards
+    for (a_, s_, c_) in dom_guards(b, bb, skip_try=False):
+        term, vals, neg, dty = c_
+        if term[0] != "discr":
+            continue
+        x = strip_refs(term[1])
+        if x[0] == "call" and x[1] in ("<std::option::Option<T> as std::ops::Try>::branch",) and x[2]:
+            x = strip_refs(x[2][0])
+            some = (vals == (0,) and not neg) or (neg and 0 not in vals)       # Continue arm
+        else:
+            some = (vals == (1,) and not neg) or (neg and vals == (0,))
+        if not some or x[0] != "call" or not x[2] or strip_refs(x[2][0]) != pt:
+            continue
+        sh = x[1].rsplit("::", 1)[-1]
+        need = None
+        if sh in ("first", "split_first", "last", "split_last"):
+            need = 1
+        elif sh in ("get", "split_at_checked") and len(x[2]) == 2:
+            ix = strip_refs(x[2][1])
+            if ix[0] == "const" and isinstance(ix[1], int):
+                need = ix[1] + (1 if sh == "get" else 0)
+            elif ix[0] == "agg" and ix[4] and all(strip_refs(y)[0] == "const" for y in ix[4]):
+                kind = (ix[2] or "").rsplit("::", 1)[-1]
+                cs = [strip_refs(y)[1] for y in ix[4]]
+                need = {"RangeFrom": cs[0], "RangeTo": cs[0], "Range": max(cs), "RangeInclusive": max(cs) + 1, "RangeToInclusive": cs[0] + 1}.get(kind)
+        if need:
+            best = max(best, need)
     return best
 
 
